@@ -72,7 +72,11 @@ def infer_redirection(url, recursive=True):
             elif "youtube.com/redirect?" in url:
                 target = "https://" + potential_target
 
-    if target is None:
+    # NOTE: an inferred target is always a strict part of the url, hence shorter.
+    # When it is not (e.g. `?u=//`, that urljoin resolves to the url itself),
+    # following it makes no progress and would recurse forever: such a url
+    # redirects nowhere. This also bounds the recursion depth.
+    if target is None or len(target) >= len(url):
         return url
 
     if recursive:
